@@ -479,7 +479,8 @@ SweepM == {Desc(k, m, <<>>, "kept", 1, "none", FALSE, o, "ENABLED", FALSE, "none
 KindsBQuick == {"function", "bound_method", "callable_object", "class", "generator",
                 "artifact_dnc", "bo_print", "c_bound", "unbound_method"}
 KindsB == IF Q THEN KindsBQuick ELSE {k \in AllKinds : Kinds[k].keys = {"k", "z"}}
-KindsBDeep == IF Q THEN {} ELSE {"function", "bound_method", "class", "bo_print"}   \* every depth-2 chain
+KindsBDeep == IF Q THEN {} ELSE {"function", "bound_method", "class", "bo_print", "callable_object", "generator",
+                                  "class_method", "c_bound", "unbound_method"}   \* every depth-2 chain
 KindOptsB == {<<k, "o_u0i1">> : k \in KindsB}
                \cup {<<k, o>> : k \in IF Q THEN {"function"} ELSE KindsBQuick, o \in {"s_r0", "o_u1i1"}}
 SweepBRaw == {Desc(ko[1], "user", ls, n, s[1], s[2], FALSE, ko[2], "UNSPECIFIED", FALSE, "none", 1, "same") :
